@@ -40,6 +40,18 @@ theorem delta_pair (x y as : String) (n : Nat) (a : String) :
     delta a (.debit x as n) + delta a (.credit y as n) = 0 := by
   simp only [delta]; split <;> omega
 
+theorem deltas_map_addPair (a : String) (names : List String) :
+    deltas a (names.map Effect.addPair) = 0 := by
+  induction names with
+  | nil => rfl
+  | cons n rest ih => simp [deltas_cons, delta, ih]
+
+theorem deltas_map_delPair (a : String) (names : List String) :
+    deltas a (names.map Effect.delPair) = 0 := by
+  induction names with
+  | nil => rfl
+  | cons n rest ih => simp [deltas_cons, delta, ih]
+
 theorem actionEffects_deltas (s : State) (signer : String) (pos : Nat) (act : Action) (a : String) :
     deltas a (actionEffects s signer pos act) = mintBurn a act := by
   cases act with
@@ -79,6 +91,9 @@ theorem actionEffects_deltas (s : State) (signer : String) (pos : Nat) (act : Ac
     rw [h1]
     cases hh : hasLeading denom chan <;> by_cases ha : denom = a <;>
       simp [hh, ha, deltas_cons, deltas_nil, delta] <;> omega
+  | pairsAdd names => simp [actionEffects, mintBurn, deltas_map_addPair]
+  | pairsDel names => simp [actionEffects, mintBurn, deltas_map_delPair]
+  | marketsChange kind ms => simp [actionEffects, mintBurn, deltas_cons, deltas_nil, delta]
 
 /-- One action (fee payment + execution) changes the total of every asset by exactly what the
     action mints or burns; for every action other than an ICS20 withdrawal of a bridged-in
